@@ -207,6 +207,7 @@ def parseXOp (n : Nat) (t : String) : Option XOp :=
     | ["mul_add_pt_znx", d, a, pd, pb, pq, l] => some (.mulAddPt false (nat! d) (nat! a) (pt! pd pb pq) (parsePt n (pt! pd pb pq) l))
     | ["mul_sub_pt_znx", d, a, pd, pb, pq, l] => some (.mulAddPt true (nat! d) (nat! a) (pt! pd pb pq) (parsePt n (pt! pd pb pq) l))
     | "add_many" :: d :: as => some (.addMany (nat! d) (as.map nat!))
+    | "mul_many" :: d :: as => some (.mulMany (nat! d) (as.map nat!))
     | "dot_ct" :: d :: k :: rest =>
       let k := nat! k
       if rest.length = 2 * k then some (.dotCt (nat! d) ((rest.take k).map nat!) ((rest.drop k).map nat!)) else none
@@ -224,7 +225,7 @@ def parseXOp (n : Nat) (t : String) : Option XOp :=
 def XOp.dstSlot : XOp → Nat
   | .lin op => LOp.dstSlot op
   | .mul d _ _ | .mulAssign d _ | .square d _ | .squareAssign d | .mulPt d _ _ _ | .mulPtAssign d _ _
-  | .mulAdd _ d _ _ | .mulAddPt _ d _ _ _
+  | .mulAdd _ d _ _ | .mulAddPt _ d _ _ _ | .mulMany d _
   | .addMany d _ | .dotCt d _ _ | .dotPt d _ _ _ | .rot d _ _ | .rotAssign d _ | .conj d _ | .conjAssign d => d
 
 def showDstX (p : DPool) : XOp → String
